@@ -194,12 +194,27 @@ impl CroppedRegion {
     }
 }
 
-fn line_count_including_trailing_empty_line(text: &str) -> usize {
-    let mut lines = text.split_terminator('\n').count().max(1);
-    if text.ends_with('\n') {
-        lines = lines.saturating_add(1);
+/// Last line (1-based, inclusive) that a cropped window starting at `start_line` accounts for.
+///
+/// The empty line behind a final `\n` counts only when the window reaches the end of the
+/// source (`source_lines` numbered lines, first one `source_first_line`): a location can sit
+/// there. In the middle of the source that line belongs to the text that follows the window; a
+/// window claiming it would be picked for a location it does not contain.
+fn window_end_line(
+    window: &str,
+    start_line: usize,
+    source: &str,
+    source_first_line: usize,
+) -> usize {
+    let lines = window.split_terminator('\n').count().max(1);
+    let mut end_line = start_line.saturating_add(lines.saturating_sub(1));
+    let source_last_line = source_first_line
+        .saturating_add(source.split_terminator('\n').count().max(1))
+        .saturating_sub(1);
+    if window.ends_with('\n') && end_line >= source_last_line {
+        end_line = end_line.saturating_add(1);
     }
-    lines
+    end_line
 }
 
 #[cfg(any(feature = "garde", feature = "validator"))]
@@ -716,8 +731,7 @@ impl Error {
             if cropped.is_empty() {
                 return;
             }
-            let lines = line_count_including_trailing_empty_line(cropped.as_str());
-            let end_line = start_line.saturating_add(lines.saturating_sub(1));
+            let end_line = window_end_line(cropped.as_str(), start_line, text, 1);
             regions.push(CroppedRegion {
                 text: cropped,
                 start_line,
@@ -848,8 +862,12 @@ impl Error {
             if cropped.is_empty() {
                 return;
             }
-            let lines = line_count_including_trailing_empty_line(cropped.as_str());
-            let end_line = region_start_line.saturating_add(lines.saturating_sub(1));
+            let source_first_line = match mapping {
+                crate::de_snipped::LineMapping::Identity => 1,
+                crate::de_snipped::LineMapping::Offset { start_line } => start_line,
+            };
+            let end_line =
+                window_end_line(cropped.as_str(), region_start_line, text, source_first_line);
             regions.push(CroppedRegion {
                 text: cropped,
                 start_line: region_start_line,
